@@ -4,14 +4,21 @@ Oracle on the real library only, after every step of a history (and on an exhaus
 record type x every kind of target identifier x {add_line, rename} on a fixed base graph per GFA version):
 
   * uniqueness  g.names has no duplicate and holds only strings; no two lines of str(g) carry the same written
-                identifier (S/P: name; E/G/O/U: non-'*' id; L/C: ID:Z tag); every written identifier is in names
+                identifier (S/P: name; E/G/O/U: non-'*' id; L/C: ID:Z tag) - a defined line next to a placeholder
+                of the same identifier included; every written identifier is in names
   * lookup      for every n in names: g.line(n) is a line whose written identifier is n, g.try_get_line(n) is the
                 same object, g.segment(n) is that object iff it is a segment (else None);
-                g.line(<unused identifier>) is None and g.try_get_line of it raises NotFoundError
+                g.line(<unused identifier>) is None and g.try_get_line of it raises NotFoundError;
+                every line that a line of the Gfa mentions in a reference field (from/to segment, sid, items, path
+                segments - placeholders of not yet defined lines included) and that carries an identifier is the
+                very object g.line(identifier) returns
   * duplicates  add_line of a well-formed line whose identifier is in use, or renaming to an identifier in use by
                 another line, raises gfapy.NotUniqueError (exactly that class) - except the documented merges:
                 U over U / O over O with the same group id (add and rename), and an L line whose end pair equals
-                that of a stored link or of its complement
+                that of a stored link or of its complement.
+                A rename to an identifier that g.line() answers with the placeholder of a mentioned, not yet defined
+                line must raise NotUniqueError as well (a lookup answers "nothing for an identifier not in use", so
+                an identifier it answers is in use; a rename re-registers, it does not define the mentioned line)
   * rename      after a successful rename to a fresh identifier the lines of str(g) are the old lines with the
                 identifier substituted at record positions (own id, segment/item mentions, ID tag), nothing else
   * fresh names g.unused_name() is not in names and is not found by g.line
@@ -20,7 +27,9 @@ Failures seen after a call that raised are prefixed "after-failed-step-" (state 
 C08's subject) and end the history.
 
 Signatures: add-duplicate-accepted-<RT>, rename-duplicate-accepted, add|rename-duplicate-raises-<Class>,
+rename-onto-placeholder-accepted, rename-onto-placeholder-raises-<Class>,
 <invariant>-after-<op> with invariant in {names-holds-non-string, names-duplicate, identifier-carried-by-two-lines,
+identifier-carried-by-line-and-placeholder, mentioned-line-not-found-under-identifier,
 identifier-missing-from-names, lookup-misses-name, lookup-returns-wrong-line, try-get-line-disagrees,
 segment-lookup-disagrees, segment-lookup-returns-non-segment, lookup-finds-unused-identifier,
 try-get-line-of-unused-identifier, unused-name-in-use, rename-text-wrong, observation-raises}, foreign-exception.
@@ -29,8 +38,9 @@ and foreign-exception (add-O/U TypeError) = #4; lookup-misses-name-after-add-L/C
 names-duplicate-after-add-L = #20.
 
 NOT CHECKED:
-  * identifiers that are only *mentioned* (placeholders / virtual lines): adding or renaming onto them is neither
-    required to raise nor to succeed here; rename text is not compared when the new name is mentioned somewhere.
+  * *adding* a line whose identifier is so far only mentioned (a placeholder exists) is the definition of that
+    line: neither required to raise nor to succeed here (a definition of an unsuitable type is C08's subject); only the
+    invariants are checked after it.  Rename text is not compared when the new name is mentioned somewhere.
   * what the documented merges produce (content of the merged group): C05/C17.
   * renaming to '*' (making a line anonymous) is generated for E/G/O/U but only the invariants are checked after it.
   * *_names properties other than names/segment lookup agreement (edge_names etc. are unions that build names).
@@ -43,9 +53,11 @@ from harness.props import _hist as H
 ID = "C09"
 RULE = ("exhaustive: on a base graph per version (3 segments incl. an integer-looking one, an ID-tagged link and "
         "containment / edge, gap, path, set), every identified record type x every target identifier (fresh, fresh "
-        "integer, '*', the identifier of each other line incl. same type) x {add_line, rename} (146 cells); random: "
+        "integer, '*', the identifier of each other line incl. same type) x {add_line, rename}, and - after lines that "
+        "mention an undefined segment V and (GFA2) an undefined set item W - every identified record type x {V, W} x "
+        "{add_line, rename} (167 cells); random: "
         "histories of 4-25 steps (60 thorough) with 35% calls aimed at identifiers in use (same type, other type, "
-        "rename onto existing), renames to fresh and integer-looking names, forward references, removals in "
+        "rename onto existing, rename onto an identifier that is only mentioned), renames to fresh and integer-looking names, forward references, removals in "
         "between. Non-trivial: at least one rename or one addition aimed at an identifier in use. Distinct by case hash.")
 
 PROF = H.profile(p_fail=0.35, close=0.4, rename_star=0.08,
